@@ -22,6 +22,7 @@ What a contract can reach here, and what stands in for the rest:
     to 64-bit two's complement).  Needs the plain-bool lowering of compat/guppy_plainbool.py.
 """
 import ast
+import re
 import z3
 
 from pyvc import SObj, ClassVal, Builtin, PyRaise
@@ -246,7 +247,8 @@ def layer_b(chk):
     m = e.module(CC)
 
     # ---- B1 sort_vars: for every row of distinct places, in EVERY order it may arrive in, the result
-    # is the one list ordered by (not droppable, str(place)) — droppable places first, by name
+    # is the one list ordered by (not droppable, name) — droppable places first, by name, generated
+    # temporaries among themselves by their NUMBER (%tmp8 before %tmp10: the counter is session-wide, C11)
     def places(it, flags):
         V = it.lookup_global(e.module(CORE), "Variable")
         FA = it.lookup_global(e.module(CORE), "FieldAccess")
@@ -258,18 +260,25 @@ def layer_b(chk):
         fld = lambda par, n, t: SObj(FA, {"parent": par, "field": SObj(ClassVal("StructField", builtin=True), {"name": n, "ty": t}), "exact_defined_at": None})  # noqa: E731
         s_ = var("s", tys[0])
         pool = [var("b", tys[0]), fld(s_, "y", tys[1]), fld(s_, "x", tys[2]), var("a", tys[3]), fld(fld(s_, "x", tys[2]), "u", tys[4]),
-                SObj(TA, {"parent": var("t", tys[0]), "elem_ty": tys[5], "index": 1, "exact_defined_at": None})]
+                SObj(TA, {"parent": var("t", tys[0]), "elem_ty": tys[5], "index": 1, "exact_defined_at": None}),
+                var("%tmp8", tys[6]), var("%tmp10", tys[7]), fld(var("%tmp9", tys[0]), "f", tys[8])]
         return pool
-    NAMES = ["b", "s.y", "s.x", "a", "s.x.u", "t[1]"]
-    rows = [c for k in (2, 3) for c in itertools.combinations(range(6), k)] + [(0, 1, 2, 3), (1, 2, 4, 5), (0, 2, 3, 4)]
+    NAMES = ["b", "s.y", "s.x", "a", "s.x.u", "t[1]", "%tmp8", "%tmp10", "%tmp9.f"]
+    NP = len(NAMES)
+
+    def name_key(nm):
+        # generated temporaries by NUMBER (the counter is session-wide: C11), everything else by name
+        mt = re.fullmatch(r"%tmp(\d+)(.*)", nm)
+        return ("%tmp", int(mt[1]), mt[2]) if mt else (nm, 0, "")
+    rows = [c for k in (2, 3) for c in itertools.combinations(range(NP), k)] + [(0, 1, 2, 3), (1, 2, 4, 5), (0, 2, 3, 4), (6, 7, 8, 0), (3, 7, 6, 8)]
     n_rows = 0
     for row in rows:
         flagsets = list(itertools.product((True, False), repeat=len(row))) if len(row) <= 3 else [(True,) * 4, (True, False, True, False), (False, True, True, False)]
         for fl in flagsets:
-            flags = [True] * 6
+            flags = [True] * NP
             for i, f in zip(row, fl):
                 flags[i] = f
-            want = [NAMES[i] for i in sorted(row, key=lambda i: (not flags[i], NAMES[i]))]
+            want = [NAMES[i] for i in sorted(row, key=lambda i: (not flags[i], name_key(NAMES[i])))]
 
             def t(it, row=row, flags=flags):
                 pool = places(it, flags)
@@ -280,7 +289,7 @@ def layer_b(chk):
                     outs.append([it.call(it.builtins["str"], [p], {}) for p in r])
                 return outs
             paths = e.explore(t)
-            chk.prove_paths(f"sort_vars[{'+'.join(NAMES[i] + ('' if flags[i] else '!') for i in row)}]:every-arrival-order-gives-the-list-ordered-by-(not-droppable,str(place))", paths,
+            chk.prove_paths(f"sort_vars[{'+'.join(NAMES[i] + ('' if flags[i] else '!') for i in row)}]:every-arrival-order-gives-the-list-ordered-by-(not-droppable,name;temporaries-by-number)", paths,
                             lambda p, want=want: z3.BoolVal(p.kind == "return" and all(o == want for o in p.value)), func=f"{CC}:sort_vars",
                             replay=lambda m_, row=row, flags=flags: {"script": REPLAY_SORT, "input": {"row": list(row), "flags": flags}})
             n_rows += 1
@@ -332,6 +341,7 @@ def layer_b(chk):
 
 REPLAY_SORT = r'''
 import itertools
+import re
 from guppylang_internals.checker.core import Variable, FieldAccess, TupleAccess
 from guppylang_internals.compiler.cfg_compiler import sort_vars
 I = INPUT
@@ -342,9 +352,14 @@ class F:
 tys = [Ty(f) for f in I["flags"]]
 s_ = Variable("s", tys[0], None)
 pool = [Variable("b", tys[0], None), FieldAccess(s_, F("y", tys[1]), None), FieldAccess(s_, F("x", tys[2]), None), Variable("a", tys[3], None),
-        FieldAccess(FieldAccess(s_, F("x", tys[2]), None), F("u", tys[4]), None), TupleAccess(Variable("t", tys[0], None), tys[5], 1, None)]
+        FieldAccess(FieldAccess(s_, F("x", tys[2]), None), F("u", tys[4]), None), TupleAccess(Variable("t", tys[0], None), tys[5], 1, None),
+        Variable("%tmp8", tys[6], None), Variable("%tmp10", tys[7], None), FieldAccess(Variable("%tmp9", tys[0], None), F("f", tys[8]), None)]
+def name_key(nm):
+    mt = re.fullmatch(r"%tmp(\d+)(.*)", nm)
+    return ("%tmp", int(mt[1]), mt[2]) if mt else (nm, 0, "")
+want = [str(pool[i]) for i in sorted(I["row"], key=lambda i: (not I["flags"][i], name_key(str(pool[i]))))]
 outs = {tuple(str(p) for p in sort_vars([pool[i] for i in perm])) for perm in itertools.permutations(I["row"])}
-print(json.dumps({"violates": len(outs) != 1, "orders": sorted(map(list, outs))}))
+print(json.dumps({"violates": outs != {tuple(want)}, "orders": sorted(map(list, outs)), "required": want}))
 '''
 
 
